@@ -59,6 +59,7 @@ type Engine struct {
 	Contracts   map[*ssa.Function]*FnContract
 	Transparent map[*ssa.Function]bool
 	Opaque      map[*ssa.Function]bool // recursive spec functions: uninterpreted + one-step unfolding per occurrence
+	Recursive   map[*ssa.Function]bool // opaque, plus the defining equation as a quantified axiom
 	unfolding   map[*ssa.Function]bool
 	unfolded    map[string]bool
 	RepoPrefix  string // module path prefix of functions that must have contracts
@@ -78,6 +79,7 @@ type Engine struct {
 	heapSorts     map[string]*smt.Sort
 	heapIdx       map[string]*smt.Sort // index sort of map heaps
 	iters         map[ssa.Value]*mapIter
+	lastIter      *mapIter
 	funcIDs       map[*ssa.Function]int
 	funcByID      map[int]*Closure
 	typeTags      map[string]int
@@ -126,6 +128,7 @@ func NewEngine(prog *ssa.Program) *Engine {
 	e.Contracts = map[*ssa.Function]*FnContract{}
 	e.Transparent = map[*ssa.Function]bool{}
 	e.Opaque = map[*ssa.Function]bool{}
+	e.Recursive = map[*ssa.Function]bool{}
 	e.initCache = map[*ssa.Package]*State{}
 	e.globRefs = map[*ssa.Global]int{}
 	e.refGlobCache = map[*ssa.Function][]*ssa.Global{}
@@ -251,6 +254,7 @@ type loopCtx struct {
 	pres    map[string]Val
 	blocks  map[*ssa.BasicBlock]bool
 	ordinal int
+	mapLoop bool
 }
 
 func isBackEdge(from, to *ssa.BasicBlock) bool { return to.Dominates(from) }
